@@ -107,6 +107,7 @@ type c08Bed struct {
 func c08NewBed(router, issMode string, hosts []string, mint func(string) string) *c08Bed {
 	key := hx.Keys()[0]
 	st := refstore.New(refstore.SigningKeySpec{Kid: "sig1", Alg: jose.SignatureAlgorithm(key.Algs[0]), Priv: key.Priv, Pub: key.Pub})
+	st.MultiTenant = issMode != "static" // request-derived issuers: the storage partitions its records by op.IssuerFromContext(ctx)
 	base := st.With(refstore.Caps{TE: true})
 	ws := &c08Store{Storage: base, TokenExchangeStorage: base.(op.TokenExchangeStorage), in: map[string]string{}, out: map[string]string{}, mint: mint}
 	cfg := opbed.Config{Router: router, S256: true, Post: true, PrivateKeyJWT: true, Refresh: true, SignKey: key, SignAlg: key.Algs[0]}
@@ -572,7 +573,7 @@ func c08Stream(r *hx.Rand, tier string, n int, w *bufio.Writer) map[string]int {
 				stats["revoke-"+what+"-hint-"+hintName]++
 				stats["revoke-"+what+"-by-"+who]++
 				stats["revoke-"+what+"-hint-"+hintName+"-"+who]++
-				host, cross := t.host, false // a token is revoked at the issuer that made it (what another issuer makes of it is F-C08c's subject)
+				host, cross := hostFor(t, "revoke", c08What(t, asRefresh)) // at another issuer the token is unknown: 200, nothing happens
 				l := line("revoke").S("tok", label).S("what", what).S("hint", hint).S("who", who).S("iss", cb.issuerOf(host)).B("cross", cross)
 				cb.presentedKV(l, sy, presented, asRefresh)
 				shapeKV(l, t)
